@@ -14,8 +14,9 @@ open Rl4co.Gen
 
 theorem fjsp_bounds (minPt maxPt mean : Int) (h1 : 1 ≤ minPt) (h2 : minPt ≤ mean) (h3 : mean < maxPt) :
     minPt ≤ fjspLow minPt mean ∧ fjspLow minPt mean ≤ mean ∧ mean + 1 ≤ fjspHigh maxPt mean ∧ fjspHigh maxPt mean ≤ maxPt + 1 := by
+  have hs : spreadNum = 1 ∧ spreadDen = 5 := by decide   -- obligation on the extracted spread 0.2
   unfold fjspLow fjspHigh roundFrac
-  simp only [Int.max_def, Int.min_def]
+  simp only [hs.1, hs.2, Int.max_def, Int.min_def]
   push_cast
   split_ifs <;> omega
 
